@@ -1,7 +1,7 @@
 (** Proofs for C15 (sequential part): the cache state machine of [model/Caches.v]
     simulates the history-level specification (answers are fresh computations under the
     provenance status). *)
-From Coq Require Import List ZArith Bool Arith Lia.
+From Coq Require Import List ZArith Bool Arith.
 Import ListNotations.
 From TI Require Import lib.Sched model.Caches.
 Open Scope Z_scope.
@@ -17,7 +17,7 @@ Lemma fresh_cs_eq e t sw q :
 Proof.
   intro P. apply pos_size_spec in P. destruct P as [Pc Pr].
   unfold fresh_cs, get_cs. destruct (has_tty e); simpl; auto.
-  destruct (cols t =? 0) eqn:E; simpl; auto. apply Z.eqb_eq in E. lia.
+  destruct (cols t =? 0) eqn:E; simpl; auto. apply Z.eqb_eq in E. rewrite E in Pc. now apply Z.lt_irrefl in Pc.
 Qed.
 
 Lemma fresh_nv_eq e t sw q : fresh_nv e t sw q = name_body e (has_tty e && q).
@@ -124,7 +124,7 @@ Proof.
   - (* no entry: the zero cache cannot match a terminal with at least one cell *)
     rewrite sim_csc0; simpl. rewrite sim_tm0.
     destruct (pos_size_spec _ sim_pos0) as [Pc Pr].
-    destruct (cols (h_tm h) =? 0) eqn:E; [apply Z.eqb_eq in E; lia|]. simpl.
+    destruct (cols (h_tm h) =? 0) eqn:E; [apply Z.eqb_eq in E; rewrite E in Pc; now apply Z.lt_irrefl in Pc|]. simpl.
     split; [constructor; rewrite ?T; simpl; rewrite ?sim_swap0, ?sim_qen0, ?sim_ncs0; auto|].
     split.
     * rewrite fresh_cs_eq, T by auto. now rewrite sim_swap0, sim_qen0.
@@ -246,7 +246,7 @@ Proof.
   destruct (h_fill h) as [[t0 b]|]; simpl.
   - unfold same_cells. now rewrite (Z.eqb_sym (cols (h_tm h))), (Z.eqb_sym (rows (h_tm h))).
   - destruct (pos_size_spec _ sim_pos0) as [Pc Pr].
-    destruct (cols (h_tm h) =? 0) eqn:E; [apply Z.eqb_eq in E; lia|]. reflexivity.
+    destruct (cols (h_tm h) =? 0) eqn:E; [apply Z.eqb_eq in E; rewrite E in Pc; now apply Z.lt_irrefl in Pc|]. reflexivity.
 Qed.
 
 Lemma sim_waits e s h :
@@ -969,7 +969,7 @@ Proof.
   assert (T : tm s1 = t).
   { pose proof (resize_in_body_cases s t) as C. unfold s1 in *. simpl in *.
     destruct (get_tsc_resize s t) as [s' v]; simpl in *.
-    destruct C as [C|(_ & C & _)]; auto. subst s'. lia. }
+    destruct C as [C|(_ & C & _)]; auto. subst s'. symmetry in N. now apply Nat.neq_succ_diag_l in N. }
   split; auto. now rewrite <- T.
 Qed.
 
@@ -1045,7 +1045,7 @@ Proof.
   - destruct (qen s); discriminate.
   - discriminate.
   - pose proof (set_cell_ratio_code e s m) as C. destruct (set_cell_ratio e s m) as [s' c]; simpl in *.
-    unfold raised. intro H. inversion H. lia.
+    unfold raised. intro H. inversion H as [H1]. rewrite H1 in C. destruct C as [C|[C|C]]; discriminate C.
   - destruct (get_cs e s); simpl. intro H. now apply view_cs_not_raised in H.
   - destruct (get_ratio e s); discriminate.
   - destruct (get_col e s k); discriminate.
